@@ -38,6 +38,12 @@ add("C13", "jaxpr2smt",
     "0<=step<=max_steps-1; executed steps of one node carry distinct in-range seqs (schedule adequacy); user step deterministic",
     "DESIGN.md §6 C13")
 
+add("C08", "jaxpr2smt",
+    "bounded symbolic execution of the jaxpr of Graph.run from a state whose ring buffers are in invariant form with symbolic schedules (run masks, seqs, window seqs); z3 decides read == emitted(producer, seq) and invariant preservation; plus whole-rollout interpretation of concrete compiled instances (real get_buffer_sizes) with symbolic payloads; replay with identifiable payloads on the real rollout",
+    "Part 1: for every adequate schedule and every buffer content satisfying the ring invariant, every window entry handed to every executed step of one partition is the payload emitted at that entry's seq (default for negative seq) and the invariant is re-established (all three supergraph modes, paddings 0..2). Part 2: on an enumerated family of compiled instances sized by the real get_buffer_sizes the same holds for all payload values over the whole horizon.",
+    "schedule adequacy is an assumption of part 1 (it is what get_buffer_sizes must provide; part 2 checks it only on the enumerated instances); L in -1..40; floats as reals",
+    "DESIGN.md §6 C08")
+
 def main():
     checks = []
     for pid in sorted(CHECKS):
